@@ -569,6 +569,11 @@ struct World {
     split: bool,
     /// experiment only (`rh` / `rd`): change lists written on the peer and not yet delivered
     held: Vec<Vec<Change>>,
+    /// `ro1`: the first of two peer transactions, not delivered yet
+    pending: Option<Vec<Change>>,
+    /// some statement used the empty string as a key value
+    empty_key: bool,
+    ro_first_empty: bool,
 }
 
 fn cells_of(vals: &[klukai_types::api::SqliteValue]) -> Vec<String> {
@@ -603,7 +608,9 @@ fn show_changes(chs: &[Change]) -> String {
 
 impl World {
     fn prefix(&self, s: &Sub) -> &'static str {
-        if s.query.has_left() && s.left_unsafe {
+        if s.query.has_left() && self.empty_key {
+            "empty-string-key: "
+        } else if s.query.has_left() && s.left_unsafe {
             "left-join-nullable-side: "
         } else {
             "ivm: "
@@ -634,9 +641,18 @@ impl World {
         while !self.window_ok(Instant::now(), lo_ms, hi_ms) && t0.elapsed() < Duration::from_secs(4) {
             tokio::time::sleep(Duration::from_millis(4)).await;
         }
+        if t0.elapsed() >= Duration::from_secs(4) && std::env::var("HX_TIMING").is_ok() {
+            let now = Instant::now();
+            for s in &self.subs {
+                eprintln!("  align timeout: sub {} width {:?} since_hi {:?}", s.sid, s.t_ref_hi - s.t_ref_lo, now - s.t_ref_hi);
+            }
+        }
     }
 
     fn note_left_unsafe(&mut self, stmts: &[Stmt]) {
+        if stmts.iter().any(|st| st.pk.iter().chain(st.newpk.iter()).any(|v| v == "t")) {
+            self.empty_key = true;
+        }
         for s in &mut self.subs {
             if !s.query.has_left() {
                 continue;
@@ -793,6 +809,7 @@ impl World {
         self.begin_group().await;
         self.pull_to_peer().await?;
         let before = self.matched_snapshot();
+        self.ro_first_empty = false;
         let mut sets: Vec<Vec<Change>> = vec![];
         for stmts in txs {
             match self.peer_tx(stmts)? {
@@ -806,6 +823,9 @@ impl World {
                 }
                 Some(chs) => {
                     self.note_left_unsafe(stmts);
+                    if sets.is_empty() && chs.is_empty() {
+                        self.ro_first_empty = true;
+                    }
                     if !chs.is_empty() {
                         sets.push(chs);
                     }
@@ -815,6 +835,31 @@ impl World {
         let shown: Vec<String> = sets.iter().map(|c| show_changes(c)).collect();
         let tmo = Duration::from_secs(60);
         match mode {
+            "ro1" => {
+                // two transactions: only the LATER one is delivered now
+                if txs.len() != 2 || sets.len() > 2 {
+                    return Err("ro1 wants two transactions".into());
+                }
+                // which of the two produced changes?  (a transaction without changes has no version)
+                let (first, second): (Option<Vec<Change>>, Option<Vec<Change>>) = match sets.len() {
+                    2 => (Some(sets[0].clone()), Some(sets[1].clone())),
+                    1 => {
+                        if self.ro_first_empty { (None, Some(sets[0].clone())) } else { (Some(sets[0].clone()), None) }
+                    }
+                    _ => (None, None),
+                };
+                self.pending = Some(first.unwrap_or_default());
+                let mut shown2 = "-".to_string();
+                if let Some(chs) = second {
+                    shown2 = show_changes(&chs);
+                    let cv = Self::changeset(&chs, 0, chs.len() - 1);
+                    process_multiple_changes(self.agent.clone(), self.bookie.clone(), vec![(cv, ChangeSource::Broadcast, Instant::now())], tmo)
+                        .await
+                        .map_err(|e| format!("process_multiple_changes: {e}"))?;
+                }
+                self.t_last_send = Instant::now();
+                return Ok(format!("ok ch={shown2} m={}", self.matched_since(&before)));
+            }
             "rh" => {
                 self.held.extend(sets);
                 return Ok(format!("ok held={} ch={}", self.held.len(), shown.join("|")));
@@ -924,7 +969,7 @@ impl World {
         }
         if !self.subs.is_empty() {
             // start the new matcher's timer in phase with the others
-            self.align(5, 40).await;
+            self.align(5, 150).await;
         }
         let t_lo = Instant::now();
         let res = api_v1_subs(
@@ -1234,6 +1279,9 @@ async fn start_world(dir: &std::path::Path) -> Result<World, String> {
         syncs: 0,
         split: false,
         held: vec![],
+        pending: None,
+        empty_key: false,
+        ro_first_empty: false,
     })
 }
 
@@ -1249,11 +1297,13 @@ async fn run_case(ops: &[String], dir: &std::path::Path) -> Result<Outcome, Stri
     let mut w = start_world(dir).await?;
     let mut outputs = vec![];
     let mut tags = vec![];
+    let timing = std::env::var("HX_TIMING").is_ok();
     for op in ops {
+        let t_op = Instant::now();
         let toks: Vec<&str> = op.split_whitespace().collect();
         let r: Result<String, String> = match toks.as_slice() {
             ["sub", sid, spec, mode] if *mode == "plain" || *mode == "alias" => w.subscribe(sid, spec, *mode == "alias").await,
-            ["w", tx] => match parse_tx(tx) {
+            ["w", tx] if w.pending.is_none() => match parse_tx(tx) {
                 Some(st) => w.local_tx(&st).await,
                 None => Err("bad-op".into()),
             },
@@ -1273,10 +1323,29 @@ async fn run_case(ops: &[String], dir: &std::path::Path) -> Result<Outcome, Stri
                 }
                 None => Err("bad-op".into()),
             },
-            [m @ ("r" | "rp" | "rb" | "rh"), txs] => {
+            ["ro2"] => match w.pending.take() {
+                Some(chs) => {
+                    w.begin_group().await;
+                    let before = w.matched_snapshot();
+                    if chs.is_empty() {
+                        Ok(format!("ok ch=- m={}", w.matched_since(&before)))
+                    } else {
+                        let cv = World::changeset(&chs, 0, chs.len() - 1);
+                        match process_multiple_changes(w.agent.clone(), w.bookie.clone(), vec![(cv, ChangeSource::Broadcast, Instant::now())], Duration::from_secs(60)).await {
+                            Ok(()) => {
+                                w.t_last_send = Instant::now();
+                                Ok(format!("ok ch={} m={}", show_changes(&chs), w.matched_since(&before)))
+                            }
+                            Err(e) => Err(format!("process_multiple_changes: {e}")),
+                        }
+                    }
+                }
+                None => Err("bad-op".into()),
+            },
+            [m @ ("r" | "rp" | "rb" | "rh" | "ro1"), txs] if w.pending.is_none() => {
                 let parsed: Option<Vec<Vec<Stmt>>> = txs.split('|').map(parse_tx).collect();
                 match parsed {
-                    Some(p) if *m == "rb" || p.len() == 1 => w.remote(m, &p).await,
+                    Some(p) if (*m == "ro1" && p.len() == 2) || *m == "rb" || (*m != "ro1" && p.len() == 1) => w.remote(m, &p).await,
                     _ => Err("bad-op".into()),
                 }
             }
@@ -1285,6 +1354,9 @@ async fn run_case(ops: &[String], dir: &std::path::Path) -> Result<Outcome, Stri
             ["events", sid] => w.events(sid),
             _ => Err("bad-op".into()),
         };
+        if timing {
+            eprintln!("{:>6} ms  {}", t_op.elapsed().as_millis(), op.chars().take(60).collect::<String>());
+        }
         match r {
             Ok(o) => outputs.push(o),
             Err(e) if e == "bad-op" => outputs.push("bad-op".into()),
@@ -1394,6 +1466,11 @@ fn templates(rng: &mut Rng) -> Vec<(String, bool)> {
         format!("t|ne(c0.1,v{t})|c0.0;cat(c0.1,vt78)"),
         "w|T|c0.0;add(c0.1,c0.1)".into(),
         format!("t|le(c0.2,v{c})|c0.2;c0.1"),
+        "t|T|c0.0".into(),
+        format!("t|gt(c0.0,v{c})|c0.0"),
+        "u|T|c0.1;c0.0".into(),
+        "t;I:u:eq(c1.0,c0.0)|T|c0.0;c1.1".into(),
+        "w;I:t:eq(c1.1,c0.0)|T|c1.0".into(),
         "t;I:u:eq(c1.0,c0.2)|T|c0.0;c0.1;c1.1;c1.2".into(),
         format!("t;I:u:eq(c1.0,c0.2)|gt(c0.2,v{c})|c0.1;c1.2"),
         "t;I:w:eq(c1.0,c0.1)|T|c0.0;c1.1;c0.2".into(),
@@ -1632,6 +1709,24 @@ fn gen_case(rng: &mut Rng, tier: Tier, _index: usize) -> Vec<String> {
             5..=7 => 2,
             _ => 3,
         };
+        if !left_mode && rng.chance(1, 6) {
+            // two peer versions arriving in the wrong order, observed in between
+            let a = gen_tx(rng, &mut db, &guards, false);
+            let b = gen_tx(rng, &mut db, &guards, false);
+            ops.push(format!("ro1 {a}|{b}"));
+            ops.push("sync".to_string());
+            for i in &live {
+                ops.push(format!("rows {i}"));
+                ops.push(format!("events {i}"));
+            }
+            ops.push("ro2".to_string());
+            ops.push("sync".to_string());
+            for i in &live {
+                ops.push(format!("rows {i}"));
+                ops.push(format!("events {i}"));
+            }
+            continue;
+        }
         let mut k = 0;
         while k < ntx {
             match rng.below(100) {
